@@ -8,12 +8,12 @@ def run(rep, tier, seed):
     ops.setup()
     lemmas.run(rep, ["z_is_model"], tier)
     quick = tier == "quick"
-    shapes = [(2, 2)] if quick else [(2, 2), (2, 3), (3, 2)]
+    shapes = [(2, 2)] if quick else [(2, 2), (2, 3)]
     for N, M in shapes:
         W = 2 ** N
         orders = [[W - 1, 0], [1, 2]] if quick else [list(p) for p in itertools.permutations(range(min(W, 4)), 3)][:8]
         for ext in (None, True):
-            for K in ((0, 1) if quick else (0, 1, 2)):
+            for K in ((0, 1) if quick or M > 2 else (0, 1, 2)):
                 if K and ext is None and False:
                     continue
                 for order in orders[: (1 if K else len(orders))]:
@@ -22,7 +22,9 @@ def run(rep, tier, seed):
                 for which in range(1, M + 1):
                     drive.run_op(rep, ocf.ZOcfHarness(N, M, K, ext, order=[], mode="accept-base", which=which))
                 for order in ([[], [W - 1]] if quick else [[], [W - 1], [1], [W - 1, 1]]):
-                    if K and order and quick:
+                    if K and order and (quick or M > 2):
+                        continue
+                    if M > 2 and (K > 1 or len(order) > 1):
                         continue
                     drive.run_op(rep, ocf.ZOcfHarness(N, M, K, ext, order=order, mode="query"))
         # facts given as strings in project syntax (parsed by the repository): negation binds
